@@ -47,14 +47,12 @@ _orig_invariant_for = _symexec.Executor.invariant_for
 
 
 def _inplace_lists(st, body):
-    aug, other = set(), set()
+    aug = set()
     for s_ in body:
         for n in _ast.walk(s_):
             if isinstance(n, _ast.AugAssign) and isinstance(n.target, _ast.Name) and isinstance(n.op, _ast.Add):
                 aug.add(n.target.id)
-            elif isinstance(n, _ast.Name) and isinstance(n.ctx, _ast.Store):
-                other.add(n.id)
-    # the target Name of an AugAssign has ctx Store too: count the stores that are not AugAssign targets
+    # every other way of storing a name in the body disqualifies it
     other = set()
     for s_ in body:
         for n in _ast.walk(s_):
